@@ -40,6 +40,8 @@ type LoopForm struct {
 	Exit int
 	z    *Polyizer
 	save map[ssa.Value]Poly
+	// SymSteps: induction variables whose stride is not a constant (phi += s)
+	SymSteps map[*ssa.Phi]ssa.Value
 	// the range of T that was in force before this form (restored by Done)
 	saveTMax int64
 	saveTSet bool
@@ -81,6 +83,50 @@ func (g *IG) loopFormAt(z *Polyizer, b *ssa.BasicBlock) (*LoopForm, bool) {
 		if okIV && nInit == 1 && step != 0 {
 			lf.IVs[phi] = step
 			lf.Init[phi] = init
+			continue
+		}
+		// a stride that is not a constant: phi + s with the same s on every back
+		// edge (the entry size read from a header, a field of the receiver)
+		if nInit == 1 {
+			var sv ssa.Value
+			okS := true
+			for i, e := range phi.Edges {
+				if !body[h.Preds[i]] {
+					continue
+				}
+				b, ok := stripConv(e).(*ssa.BinOp)
+				if !ok || b.Op != token.ADD {
+					okS = false
+					break
+				}
+				var other ssa.Value
+				switch {
+				case stripConv(b.X) == ssa.Value(phi):
+					other = b.Y
+				case stripConv(b.Y) == ssa.Value(phi):
+					other = b.X
+				default:
+					okS = false
+				}
+				if !okS {
+					break
+				}
+				if sv != nil && sv != other {
+					// two different expressions: accepted when they have the same polynomial
+					if !z.Of(sv).equal(z.Of(other)) {
+						okS = false
+						break
+					}
+				}
+				sv = other
+			}
+			if okS && sv != nil {
+				if lf.SymSteps == nil {
+					lf.SymSteps = map[*ssa.Phi]ssa.Value{}
+				}
+				lf.SymSteps[phi] = sv
+				lf.Init[phi] = init
+			}
 		}
 	}
 	lf.save = z.env
@@ -91,6 +137,13 @@ func (g *IG) loopFormAt(z *Polyizer, b *ssa.BasicBlock) (*LoopForm, bool) {
 	// inits are evaluated outside the loop environment
 	for phi, step := range lf.IVs {
 		env[phi] = z.Of(lf.Init[phi]).add(polyAtom(loopT).mul(polyConst(step)), 1)
+	}
+	for phi, sv := range lf.SymSteps {
+		sp := z.Of(sv)
+		if _, c, ok := splitT(sp); !ok || len(c) != 0 {
+			continue
+		}
+		env[phi] = z.Of(lf.Init[phi]).add(polyAtom(loopT).mul(sp), 1)
 	}
 	z.env = env
 	// exit test: the test of the induction variables that leaves the loop. It is
